@@ -261,6 +261,34 @@ func sortedAfterDepth(info *types.Info, list []ast.Stmt, i int, xs types.Object,
 			if !ok || be.Op != token.LSS {
 				return "", st.Pos(), false
 			}
+			// sorted by the source offset of the AST node each key stands for
+			// (index[xs[i]].Offset() < index[xs[j]].Offset()): distinct nodes have distinct offsets,
+			// so this is a total order that does not depend on the collection order
+			if cx, ok := unparen(be.X).(*ast.CallExpr); ok {
+				if cy, ok := unparen(be.Y).(*ast.CallExpr); ok && len(cx.Args) == 0 && len(cy.Args) == 0 {
+					fx, fy := calleeOf(info, cx), calleeOf(info, cy)
+					var pn []string
+					for _, f := range fl.Type.Params.List {
+						for _, n := range f.Names {
+							pn = append(pn, n.Name)
+						}
+					}
+					if fx != nil && fx == fy && fx.Name() == "Offset" && fx.Pkg() != nil && strings.HasPrefix(fx.Pkg().Path(), pkgLL) && len(pn) == 2 {
+						sx := strings.ReplaceAll(exprString(cx), "["+pn[0]+"]", "[#]")
+						sy := strings.ReplaceAll(exprString(cy), "["+pn[1]+"]", "[#]")
+						mentions := false
+						ast.Inspect(cx, func(m ast.Node) bool {
+							if id, ok := m.(*ast.Ident); ok && info.ObjectOf(id) == xs {
+								mentions = true
+							}
+							return true
+						})
+						if sx == sy && mentions && strings.Contains(sx, "[#]") {
+							return "source order of the nodes the keys stand for (sort.Slice by Offset())", st.Pos(), true
+						}
+					}
+				}
+			}
 			lx, ok1 := be.X.(*ast.IndexExpr)
 			ly, ok2 := be.Y.(*ast.IndexExpr)
 			if !ok1 || !ok2 {
@@ -929,11 +957,78 @@ func ruleORDSORT(c *Ctx) []Obligation {
 	if len(wi.problems) == 0 {
 		pi := wi.p.TypesInfo
 		emitted := map[string]string{}
+		// statement lists at any depth: a section may be emitted under an option test
+		var allLists [][]ast.Stmt
 		for _, list := range c.expandedStmtLists(wi.writeTo, 0) {
+			allLists = append(allLists, list)
+			for _, st := range list {
+				ast.Inspect(st, func(q ast.Node) bool {
+					switch x := q.(type) {
+					case *ast.FuncLit:
+						return false
+					case *ast.BlockStmt:
+						allLists = append(allLists, x.List)
+					case *ast.CaseClause:
+						allLists = append(allLists, x.Body)
+					}
+					return true
+				})
+			}
+		}
+		for _, list := range allLists {
 			for i, st := range list {
 				rs, ok := st.(*ast.RangeStmt)
 				if !ok {
 					continue
+				}
+				// a list handed out by a helper of the module as it is, or as a copy sorted by ID
+				// (for _, md := range m.sortedMetadataDefs())
+				if call, ok := unparen(rs.X).(*ast.CallExpr); ok && len(call.Args) == 0 {
+					if hfd := c.funcDecl(calleeOf(pi, call)); hfd != nil && hfd.Body != nil && c.declPkg[hfd] == wi.p {
+						field, sortedByID, okAll := "", false, true
+						ast.Inspect(hfd.Body, func(q ast.Node) bool {
+							switch x := q.(type) {
+							case *ast.FuncLit:
+								return false // comparison closures have returns of their own
+							case *ast.ReturnStmt:
+								if len(x.Results) != 1 {
+									okAll = false
+									return true
+								}
+								if n2, f := c.irFieldOf(pi, x.Results[0]); n2 != nil && typeKey(n2) == "ir.Module" {
+									field = f.Name()
+								} else if _, isID := unparen(x.Results[0]).(*ast.Ident); !isID {
+									okAll = false
+								}
+							case *ast.CallExpr:
+								if f := calleeOf(pi, x); f != nil && f.Pkg() != nil && f.Pkg().Path() == "sort" {
+									sortedByID = strings.Contains(exprString(x), ".ID()") || func() bool {
+										found := false
+										ast.Inspect(hfd.Body, func(z ast.Node) bool {
+											if fl, ok := z.(*ast.FuncLit); ok && strings.Contains(exprStringNode(fl.Body), ".ID() <") {
+												found = true
+											}
+											return true
+										})
+										return found
+									}()
+								}
+								if exprString(x.Fun) == "copy" && len(x.Args) == 2 {
+									if n2, f := c.irFieldOf(pi, x.Args[1]); n2 != nil && typeKey(n2) == "ir.Module" {
+										field = f.Name()
+									}
+								}
+							}
+							return true
+						})
+						if field != "" && okAll {
+							if sortedByID {
+								emitted[field] = "in-order range over the list or a copy of it sorted by ascending ID (" + hfd.Name.Name + ")"
+							} else {
+								emitted[field] = "in-order range (" + hfd.Name.Name + ")"
+							}
+						}
+					}
 				}
 				if n2, f := c.irFieldOf(pi, rs.X); n2 != nil && typeKey(n2) == "ir.Module" {
 					if _, isMap := pi.TypeOf(rs.X).Underlying().(*types.Map); isMap {
@@ -1049,4 +1144,20 @@ func isEmptySliceInit(info *types.Info, e ast.Expr) bool {
 	}
 	tv := info.Types[call.Args[1]]
 	return tv.Value != nil && tv.Value.String() == "0"
+}
+
+// exprStringNode renders any node (used for small bodies of comparison closures).
+func exprStringNode(n ast.Node) string {
+	var sb strings.Builder
+	ast.Inspect(n, func(m ast.Node) bool {
+		if e, ok := m.(ast.Expr); ok {
+			if _, isLit := e.(*ast.FuncLit); !isLit {
+				sb.WriteString(exprString(e))
+				sb.WriteString(";")
+				return false
+			}
+		}
+		return true
+	})
+	return sb.String()
 }
